@@ -9,7 +9,7 @@ AGENTS = {"b-c32": "a65a09fcf5f329315", "b-c04": "a41f6416edeae2e6d", "b-c41": "
           "b-c13": "a662912cf8258b9ad", "b-c49": "ae8c52ca6804330ed", "b-c14": "ab5a2a2a0830de617", "b-c29": "ad51b365e8a1f6a1a",
           "b-c46": "a3bdd8f156ae6d8a2", "b-c21": "ac48151bbc3bfd99e", "b-c07": "afe048e24379bc0bf", "b-c12": "ae545b4b387e5a672",
           "b-c20": "a3b34b84fab0ac707", "b-c09": "aeba14ad3a798c004", "b-c19": "aeef9ee1920b54637", "b-c25": "ad69fa0532d50e8da",
-          "b-c05": "a77a14ce57a1bba28"}
+          "b-c05": "a77a14ce57a1bba28", "b-c27": "a5ea0059a5b52f949", "b-c28": "ab6de0415bd419348"}
 AGENTS.update(dict(a.split("=") for a in sys.argv[1:]))
 OUT = os.path.join(os.path.dirname(__file__), "..", "notes", "clauses")
 for name, aid in sorted(AGENTS.items()):
